@@ -16,6 +16,9 @@ PROPS = {
     "C05": dict(sources=["c05.cpp"], flavours=["asan"], shards={"quick": 8, "thorough": 16}, level="exploration",
                 technique="exhaustive (ToS, opcode) x state single-step sweep plus rapidcheck histories, both judged by a non-deterministic 'possible mappers' reference model",
                 assumptions=COMMON_ASSUME + ["commands (Emit/Query/QueryLargeTlv) are issued only by the active mapper or while none is active (the statement's domain restriction)"]),
+    "C06": dict(sources=["c06.cpp"], flavours=["asan"], shards={"quick": 8, "thorough": 16}, level="exploration",
+                technique="generated Emits (full sweep over n, random descriptor lists inside histories, over-declared counts) checked against the exact expected sleep/send port-call trace",
+                assumptions=COMMON_ASSUME),
     "C03": dict(sources=["c03.cpp"], flavours=["asan"], shards={"quick": 4, "thorough": 16}, level="exploration",
                 technique="rapidcheck-generated frame histories; independent byte-level decoder as oracle; C05 reference model decides which Discovers must be accepted",
                 assumptions=COMMON_ASSUME),
